@@ -632,6 +632,12 @@ def dec_rule(ck: Checker, F, R='C06.DEC'):
     m = F.mod
     T, Fv = True, False
     n, N = 2, 2
+    # (the decoder is a private method: the fold knows it as `_get_circuit_by_model(self, model)`; written another way, decoding is
+    # left to C06.FIND, which checks the circuits find_circuit hands back for every two-input function)
+    dec = m.functions.get('CircuitFinderSat._get_circuit_by_model')
+    if dec is None or [a.arg for a in dec.args.args] != ['self', 'model']:
+        ck.notes.setdefault('structural_rules_not_applicable', []).append('model-decoder fold: CircuitFinderSat._get_circuit_by_model(self, model) is not there [left to C06.FIND]')
+        return
     for n_out, step in ((1, 37), (2, 53)):
         probs = []
         n_dec = 0
